@@ -8,6 +8,7 @@ mod lex;
 mod mnemonic;
 mod numeric;
 mod queue;
+mod resp;
 mod status;
 mod util;
 
@@ -27,6 +28,8 @@ fn main() {
         "num-rows-c07" => numeric::rows_c07(rest),
         "num-rows-c08" => numeric::rows_c08(rest),
         "num-rows-c17" => numeric::rows_c17(rest),
+        "resp-rows-c09" => resp::rows_c09(rest),
+        "resp-rows-c20" => resp::rows_c20(rest),
         "queue-edges" => queue::replay_edges(rest),
         "queue-trace" => queue::record_trace(rest),
         "status-edges" => status::replay_edges(rest),
